@@ -174,7 +174,8 @@ def _r134_fit(ctx):
             ok1 = ok1 and k.op == "sub" and k.args[0].op == "elem" and k.args[1] is const(0) and contains(
                 k.args[0].args[0], lambda s: s.op == "call" and s.args[0].op == "attr" and s.args[0].args[1] == "groupby")
         dict_st = [e for e in r.events if e.kind == "store" and e.data["tkind"] == "sub" and e.func == r.func
-                   and isinstance(e.data.get("base_node"), ast.Name) and e.data["base_node"].id == "interpolation_dict"]
+                   and isinstance(e.data.get("base_node"), ast.Name) and e.data["value"].op == "call"
+                   and e.data["value"].args[0] is glob("sklearn.utils.Bunch")]
         ok2 = bool(dict_st)
         for e in dict_st:
             k = e.data["key"]
